@@ -47,6 +47,7 @@ pub fn step_to_json(s: &Step) -> Value {
             let target = match &msg.target {
                 Target::Tx(k) => json!({"tx":k}),
                 Target::Fin(k) => json!({"fin":k}),
+                Target::Sent(k) => json!({"sent":k}),
                 Target::Unknown => json!("unknown"),
             };
             json!({"a":"recv","at":time_to_json(at),"target":target,"cls":obs::class_name(msg.class),
@@ -84,6 +85,8 @@ pub fn step_from_json(v: &Value) -> Step {
                 Target::Tx(k.as_u64().unwrap_or(0) as usize)
             } else if let Some(k) = v["target"].get("fin") {
                 Target::Fin(k.as_u64().unwrap_or(0) as usize)
+            } else if let Some(k) = v["target"].get("sent") {
+                Target::Sent(k.as_u64().unwrap_or(0) as usize)
             } else {
                 Target::Unknown
             };
